@@ -29,6 +29,13 @@ Qed.
 Lemma in_rep_files (rep : replica) lv f : In lv (firstn 9 rep) -> In f lv -> In f (rep_files rep).
 Proof. intros H1 H2. unfold rep_files. apply in_concat. eauto. Qed.
 
+(** whether applyLTXFile succeeds depends on the file's outcome only *)
+Lemma apply_snd im f : snd (apply_ltx_file im f) = negb (fails f).
+Proof.
+  unfold apply_ltx_file, fails.
+  destruct (f_bad f =? 1), (f_bad f =? 3), (f_bad f =? 2); reflexivity.
+Qed.
+
 Section Algo.
 Variable rep : replica.
 Variable im0 : image.
@@ -72,6 +79,20 @@ Proof.
   rewrite chain_ok_snoc, I1, I2. split.
   - apply andb_true_intro; split; [apply andb_true_intro; split; [reflexivity|now apply N.leb_le]|now apply N.ltb_lt].
   - apply Forall_app; split; [exact I4|]. now constructor.
+Qed.
+
+Lemma run_ok_all_ok im c fs : run_ok im c fs -> forallb (fun f => negb (fails f)) fs = true.
+Proof.
+  induction 1 as [|im c fs f im' H IH Hin Hmin Hmax Hap]; [reflexivity|].
+  rewrite forallb_app, IH. cbn. rewrite <- (apply_snd im f), Hap. reflexivity.
+Qed.
+
+Lemma run_err_last im' fs' : run_err im' fs' ->
+  exists pre f, fs' = pre ++ [f] /\ fails f = true /\ forallb (fun g => negb (fails g)) pre = true.
+Proof.
+  intros (im & c & fs & f & H & _ & _ & _ & Hap & ->). exists fs, f. split; [reflexivity|].
+  split; [|now apply (run_ok_all_ok im c)].
+  pose proof (apply_snd im f) as E. rewrite Hap in E. cbn in E. now destruct (fails f).
 Qed.
 
 Lemma do_apply_spec st cur f :
